@@ -15,7 +15,7 @@ CFG = {
             "and the AST yield; plus up to 10 longer sentences per grammar with leftmost-derivation witnesses (lm_check) and one-token corruptions of them. classic: textbook grammars on the SLR/LALR/LR(1)/non-LR boundaries incl. the D11a/D11b witnesses; "
             "exhaustive: all reduced grammars over {S},{S,A} x {a,b} with <=2 productions and a seeded 1/40 sample with 3; "
             "boundary: seeded 1-2 step edits (add/drop/change/wrap/delete) of the SLR/LALR/LR(1) separating grammars; random: <=4 non-terminals, <=4 terminals, <=8 productions with epsilon bodies; prec: E -> E op E | ( E ) | id for "
-            "<=3 operators x every ordered partition into levels x every associativity, plus families whose conflicting productions have two different terminals (ternary E?E:E, dangling else, mixfix E[E]E, two-token operator) x every declaration over their first and last terminals, parser compared with the table resolved by the modelled ResolveConflicts. "
+            "<=3 operators x every ordered partition into levels x every associativity, plus families whose conflicting productions have two different terminals (ternary E?E:E, dangling else, mixfix E[E]E, two-token operator) x every declaration over their first and last terminals, parser compared with the table resolved by the modelled ResolveConflicts; cells with 3-4 actions (two/three reduces on production handles plus a shift) x every order of separate levels, each case built 6 times (25 thorough) so that different iteration orders of the action set are seen. "
             "A case is non-trivial when at least one table was built and the strings tried contain both an accepted and a rejected one; "
             "distinct = distinct (grammar, precedence, op count).",
     "assumptions": ["terminals/non-terminals are single letters mapped to nat indices; the endmarker is the lookahead None",
